@@ -1314,6 +1314,23 @@ def rule_pu2(ctx: Ctx) -> RuleResult:
                 "something else than the schema order (e.g. the key order of the row)" % e.brief(), trace_of(p)))
     r.ob(saw_append, lambda: Finding("PU-2", "%s::create_record._create_record{transpose}" % PQ, m.where(fn),
                                      "no per-column append of row[name] found in the record builder"))
+    # the column arrays are built from the values as they are: no option of pyarrow.array that turns values into nulls or wraps them
+    # (library facts: from_pandas=True reads NaN as null, mask= nulls the masked slots, safe=False lets a cast overflow or truncate)
+    ARRAY_REWRITING = {"from_pandas": (None, False), "mask": (None,), "safe": (True,)}
+    arrs = [n for n in ast.walk(fn) if isinstance(n, ast.Call) and dotted_name(n.func) is not None
+            and ctx.program.resolve_dotted(m, dotted_name(n.func))[1] in ("pyarrow.array", "pyarrow.lib.array")]
+    r.groups.add(("create_record", "array-options"))
+    for a in arrs:
+        if any(k.arg is None for k in a.keywords):
+            raise AnalysisError("parquet.create_record: pa.array is called with ** arguments; its options cannot be told")
+        bad = [k for k in a.keywords if k.arg in ARRAY_REWRITING and not (isinstance(k.value, ast.Constant) and k.value.value in ARRAY_REWRITING[k.arg])]
+        bad += [ast.keyword(arg=nm, value=v) for nm, v in zip(("mask", "size", "from_pandas", "safe"), a.args[2:])
+                if nm in ARRAY_REWRITING and not (isinstance(v, ast.Constant) and v.value in ARRAY_REWRITING[nm])]
+        r.ob(not bad, lambda a=a, bad=bad: Finding(
+            "PU-2", "%s::create_record._create_record{array-options}" % PQ, m.where(a),
+            "%s: with %s pyarrow does not store the values it is given (from_pandas=True stores NaN as null, mask= nulls slots, safe=False lets a cast "
+            "wrap or truncate), so the file does not hold the source rows" % (ast.unparse(a)[:70], ", ".join("%s=%s" % (k.arg, ast.unparse(k.value)) for k in bad))))
+    r.ob(bool(arrs), lambda: Finding("PU-2", "%s::create_record._create_record{array-options}" % PQ, m.where(fn), "no pyarrow.array call found in the record builder"))
     # stage order of dump_to_file
     md, fd = ctx.function(PQ, "dump_to_file")
     if len([1 for x in ctx.functions_named(PQ, "dump_to_file")]) < 1:
